@@ -58,7 +58,7 @@ class Ctx:
             raise tlc.TLCFailure(f"model {spec}/{cfg}: {r['violated']} violated\n{r['out'][-3000:]}")
         return r
 
-    def validate(self, spec, cfg, events, tag="t", shards=16, env=None, timeout=1500):
+    def validate(self, spec, cfg, events, tag="t", shards=8, env=None, timeout=1500):
         """events: list of dicts with unique int 'id'.  Returns {id: [clauses]}."""
         viols, n = tlc.trace_check(spec, cfg, events, self.scratch, shards=shards, tag=tag, env=env,
                                    timeout=timeout)
